@@ -257,7 +257,7 @@ func (p *Polynomial) Evaluate(x interface{}) (y *Complex) {
 // Factorize factorizes p as X^{n} * pq + pr.
 func (p Polynomial) Factorize(n int) (pq, pr Polynomial) {
 
-	if n < p.Degree()>>1 {
+	if n < (p.Degree()+1)>>1 {
 		panic("cannot Factorize: n < p.Degree()/2")
 	}
 
